@@ -18,7 +18,7 @@ HEX_FAMILIES = ['regular-6', 'regular-8', 'irregular-6', 'irregular-8',
                 'swap-last', 'cli-single', 'array-own-zero', 'fill-rotation',
                 'container-rot', 'flip-axial', 'nonadjacent-6',
                 'nonadjacent-8', 'nested', 'side-planes-with-tr', 'paren-pairs',
-                'two-lattices']
+                'two-lattices', 'two-pitches']
 
 LAT_U = 50          # universe of the lattice cell
 LAT_CELL = 500
@@ -62,6 +62,21 @@ class LatBuilder:
         self.deck.surfs.append(M.Surf(sid, 'p', [float(v) for v in wnrm]
                                       + [dval]))
         return sid, (-1.0 if flip else 1.0)
+
+    def plane_like(self, sid_like, point):
+        '''Add a plane with exactly the normal of card `sid_like` as it is
+        written there, through `point`.'''
+        like = next(s for s in self.deck.surfs if s.id == sid_like)
+        sid = self.next_surf
+        self.next_surf += 1
+        pnt = np.asarray(point, dtype=float)
+        if like.kind in ('px', 'py', 'pz'):
+            params = [float(pnt['xyz'.index(like.kind[1])])]
+        else:
+            abc = [float(v) for v in like.params[:3]]
+            params = abc + [float(np.asarray(abc) @ pnt)]
+        self.deck.surfs.append(M.Surf(sid, like.kind, params))
+        return sid
 
     def element_universe(self, unum, size):
         '''Two cells: inside / outside an off-centre sphere.'''
@@ -546,6 +561,36 @@ def build_hex(rng, family):
     fill_tr, trcl = _place(bld, family)
     cfill = _maybe_nested(bld, family, M.Fill(universe=LAT_U, tr=fill_tr), span)
     extra = []
+    if family == 'two-pitches':
+        # a second lattice whose sides have the same normals, senses and
+        # listing order as the first one, but another pitch and position
+        scale2 = rng.choice([rnd(rng, 0.6, 0.8), rnd(rng, 1.25, 1.5)])
+        offset = np.array([rnd(rng, -0.5, 0.5) for _ in range(3)])
+        if axial:
+            # the two axial planes are shared by both lattices
+            offset = offset - (offset @ wax) * wax
+        origin2 = origin + offset
+        leaves2 = []
+        for k, leaf in zip(order, leaves[:6]):
+            sid2 = bld.plane_like(leaf[1], origin2 + scale2 * hexv[k])
+            leaves2.append(M.S(sid2 if leaf[2] > 0 else -sid2))
+        leaves2 += list(leaves[6:])
+        truth2 = [scale2 * truth[0], scale2 * truth[1]] + list(truth[2:])
+        arr2 = _array(rng, ranges3, universes[::-1])
+        fil2 = M.Fill(ranges=list(ranges3), array=arr2)
+        mat2, rho2 = bld.material()
+        lat2 = M.Cell(LAT_CELL + 10, mat=mat2, rho=rho2, geom=M.AND(*leaves2),
+                      imp={'n': '1'}, u=LAT_U + 1, lat=2, fill=fil2)
+        lat2.lat_info = M.LatticeTruth(2, origin2, truth2,
+                                       hexagon=[scale2 * v for v in hexv])
+        deck.cells.append(lat2)
+        bld.deck.surfs.append(M.Surf(2, 'p', [float(v) for v in frame[0]]
+                                     + [0.2]))
+        geom1 = M.AND(geom, M.S(-2))
+        mat3, rho3 = bld.material()
+        extra.append(M.Cell(2, mat=mat3, rho=rho3, geom=M.AND(geom, M.S(2)),
+                            imp={'n': '1'}, fill=M.Fill(universe=LAT_U + 1)))
+        geom = geom1
     if family == 'two-lattices':
         # a second lattice cell bounded by the very same planes, listed
         # starting from another side: its a1, a2 differ
